@@ -104,10 +104,11 @@ var c05 = Register("C05", "C05.parse", func(a c05Args) *Violation {
 		if uerr != nil || u != d {
 			return violf("UnmarshalText(%s) mode %v = %s, %v; Parse gives %s", show, m, ref.Decode(u), uerr, g)
 		}
-		if m == d128.ToNearestEven {
-			if p, md := mustParsePanics(s); p || md != d {
-				return violf("MustParse(%s) panicked=%v value %s; Parse gives %s", show, p, ref.Decode(md), g)
-			}
+		var mp bool
+		var md d128.Decimal
+		withDefaultMode(m, func() { mp, md = mustParsePanics(s) })
+		if mp || md != d {
+			return violf("MustParse(%s) under DefaultRoundingMode=%v panicked=%v value %s; Parse gives %s", show, m, mp, ref.Decode(md), g)
 		}
 		// Scan (fmt.Sscan) for the same numerals, under the same DefaultRoundingMode
 		var sv *Violation
